@@ -9,7 +9,7 @@ HEADER = """C17 — Concurrent operations on sync nodes terminate and serialise.
    semantics. REFUTED (c17_refuted_*, concrete schedules by vm_compute, each reproduced on the implementation): the full
    property — no panic, serialisable outcome — which fails because every mutation is two or more separately locked critical
    sections (D11). These are the known findings of KNOWN_FINDINGS.txt; no theorem claims serialisability."""
-REQUIRES = ["From Gdsl.Model Require Import Spec Conc.", "From Gdsl.Proofs Require Import ConcProof."]
+REQUIRES = ["From Coq Require Import Permutation.", "From Gdsl.Model Require Import Spec Conc.", "From Gdsl.Proofs Require Import ConcProof ConcCycle."]
 PINS = [
  ("c17_one_guard_per_thread", "one_guard_per_thread", "in every reachable configuration a thread holds at most one guard, and only for the critical section it is parked at"),
  ("c17_no_deadlock", "no_deadlock", "no reachable configuration is deadlocked: while some thread is unfinished, some thread can move"),
@@ -23,4 +23,5 @@ PINS = [
  ("c17_refuted_order", "c17_refuted_order", "REFUTATION: two connects of one pair: outgoing and incoming order differ"),
  ("c17_refuted_try", "c17_refuted_try", "REFUTATION: two try_connect of one pair both succeed"),
  ("c17_refuted_undirected_iter", "c17_refuted_undirected_iter", "REFUTATION: undirected iteration concurrent with a connect yields an entry twice"),
+ ("c17_refuted_cycle", "c17_refuted_cycle", "REFUTATION: four threads, one connect each, over four pairwise shared adjacency lists: all succeed, nothing panics, and the final lists are those of NO sequential order of the four calls (all 24 permutations)"),
 ]
